@@ -1,6 +1,7 @@
 // Package c18: every statement of an operation carries the caller's context.
 //
-// Each operation is started from WithContext / Session{Context} with a context carrying a
+// Each operation is started from WithContext / Session{Context} (on the root handle, on the tx of
+// an enclosing Transaction block, or handed back by a scope of the operation's chain) with a context carrying a
 // unique operation id; the recording driver stores ctx.Value(key) for every begin / prepare /
 // exec / query / prepared-statement call. Oracle: every such event between the operation's
 // start and end marks shows the operation's id (and so do the contexts seen by hooks);
@@ -337,10 +338,10 @@ func run(c *core.Ctx) {
 		}
 		return p, func() {}
 	}
-	sibling := r.Intn(6) // what else is derived from the context-bound handle before the operation uses it
-	sibCtx := r.Intn(3)  // the sibling's context: alive, already cancelled, deadline passed
-	sibUse := r.Intn(2)  // what the sibling is used for
-	chain := r.Intn(7)   // the bound handle may be a chain value (a chain method was called on it: clone == 0) instead of a session
+	sibling := r.Intn(6)                   // what else is derived from the context-bound handle before the operation uses it
+	sibCtx := r.Intn(3)                    // the sibling's context: alive, already cancelled, deadline passed
+	sibUse := r.Intn(2)                    // what the sibling is used for
+	chain := r.Intn(7)                     // the bound handle may be a chain value (a chain method was called on it: clone == 0) instead of a session
 	manualTx := r.Intn(3) == 0 && nest > 0 // outermost transaction by Begin / Commit / Rollback instead of a Transaction block
 	sess := r.Intn(7)                      // further session options on the bound handle
 	if sess > 3 || (prep && sess != 3) {
@@ -358,6 +359,8 @@ func run(c *core.Ctx) {
 	if bd.how != 0 || bd.depth > 0 {
 		bd.outer = r.Intn(2)
 	}
+	// Session{Context} may ask for a fresh statement as well (NewDB): still the handle at hand (same pool / tx), bound
+	newDB := viaSession && bd.how == 0 && r.Intn(3) == 0
 	// a chain value is good for ONE chain: an operation that starts two gets it only through a Transaction block
 	if chain > 4 || (o.multi && bd.depth == nest) {
 		chain = 0
@@ -367,7 +370,7 @@ func run(c *core.Ctx) {
 	if bd.outer == 1 {
 		outerVal = outerID
 	}
-	bindDesc := []string{map[bool]string{true: "Session{Context}", false: "WithContext"}[viaSession], "Scopes(func(d) d.WithContext(ctx))", "Scopes(func(d) d.Session(&Session{Context: ctx}))"}[bd.how]
+	bindDesc := []string{map[bool]string{true: "Session{Context}", false: "WithContext"}[viaSession] + map[bool]string{true: " (with NewDB)", false: ""}[newDB], "Scopes(func(d) d.WithContext(ctx))", "Scopes(func(d) d.Session(&Session{Context: ctx}))"}[bd.how]
 	if bd.depth > 0 || bd.how != 0 {
 		bindDesc += fmt.Sprintf(" on the handle inside %d open block(s), outer handle %s", bd.depth, []string{"unbound", "bound to another live context"}[bd.outer])
 	}
@@ -404,7 +407,7 @@ func run(c *core.Ctx) {
 		case bd.how != 0:
 			base = root.Scopes(bindScope(bd.how, ctx))
 		case viaSession:
-			base = root.Session(&gorm.Session{Context: ctx})
+			base = root.Session(&gorm.Session{Context: ctx, NewDB: newDB})
 		default:
 			base = root.WithContext(ctx)
 		}
@@ -773,14 +776,16 @@ func short(s string) string {
 var Engine = &core.Engine{
 	ID:    "C18",
 	Level: "exploration",
-	Rule: "operations = the 19 write kinds of C05 over seeded association graphs (hooks write through tx; Delete/Updates with RETURNING among them) + 30 read / association-mode / raw / savepoint / failing-nested-block kinds (nested and conditional Preload, clause.Associations, Joins, FindInBatches with a statement in the callback, Rows+ScanRows, Scan, Pluck, Count, First/Last, FirstOrCreate/Init, Association Append/Replace/Delete/Clear/Count/Find on has-many and many-to-many, Raw, Exec, SavePoint/RollbackTo/nested Transaction, soft delete with and without RETURNING, OnConflict upsert) x {PrepareStmt off, on by config, on by Session{PrepareStmt} before or after binding the context, Session{SkipDefaultTransaction}} x nesting in 0..2 Transaction blocks (outermost one in three by Begin/Commit/Rollback) x {WithContext, Session{Context}} x caller's context {value, value+far deadline, value+cancellable} x bound handle {session, chain value: Set / Scopes / Where / InstanceSet called on it, used for the one chain of the operation} x {nothing, one of five sibling sessions with another context (alive, cancelled, expired) derived from the bound handle / chain value and used (Raw or Count) first}; " +
-		"each run: (1) live context: every begin/prepare/exec/query/prepared-exec event and every hook shows the operation id, no call's context had ended, no context error comes back; the context object of every call has the caller's deadline, and once the caller's context is cancelled after the operation the context of every call it made reports an error; (2) already cancelled / expired context: no driver statement, error returned; (2b, one in three) that handle bound again to context.Background(): nothing of the old context reaches a call; (3) context cancelled during the k-th call (3 positions, thorough: all): no later call; distinct = (operation, PrepareStmt, nesting, entry, event kinds, size class, chain value, manual transaction, session option); non-trivial = at least 2 context-carrying driver events",
+	Rule: "operations = the 19 write kinds of C05 over seeded association graphs (hooks write through tx; Delete/Updates with RETURNING among them) + 36 read / association-mode / raw / savepoint / failing-nested-block kinds (nested and conditional Preload, clause.Associations, Joins, Joins with nested Preload, FindInBatches with a statement in the callback, FindInBatches with Where/Or/Limit/Offset and a write through the batch handle, Rows+ScanRows, Row, Scan, Pluck, Count, First/Last/Take, Find into maps, a chain whose own scopes add a condition and hand back a new session, FirstOrCreate/Init, Association Append/Replace/Delete/Clear/Count/Find on has-many and many-to-many, Raw, Exec, SavePoint/RollbackTo/nested Transaction, soft delete with and without RETURNING, OnConflict upsert) x {PrepareStmt off, on by config, on by Session{PrepareStmt} before or after binding the context, Session{SkipDefaultTransaction}} x nesting in 0..2 Transaction blocks (outermost one in three by Begin/Commit/Rollback) x {WithContext, Session{Context}, Session{Context, NewDB}} x where the context is bound {on the root handle before everything (half of the cases); on the tx of the 1st..nest-th Transaction block, the blocks above it opened from an outer handle that is unbound or bound to another live context; by a scope of the chain handed to the operation that hands back d.WithContext(ctx) or d.Session(&Session{Context: ctx}), receiver unbound or bound to another live context} x caller's context {value, value+far deadline, value+cancellable} x bound handle {session, chain value: Set / Scopes / Where / InstanceSet called on it, used for the one chain of the operation} x {nothing, one of five sibling sessions with another context (alive, cancelled, expired) derived from the bound handle / chain value and used (Raw or Count) first}; " +
+		"each run: (1) live context: every begin/prepare/exec/query/prepared-exec event made on behalf of the bound handle (from the binding to the end of the block it happened in) and every hook shows the operation id, no call's context had ended, no context error comes back; the calls of the blocks above the binding (BEGIN, SAVEPOINT, ROLLBACK TO) show the outer handle's context; the context object of every call has the caller's deadline, and once the caller's context is cancelled after the operation the context of every call it made reports an error; (2) already cancelled / expired context: no driver statement, error returned; (2b, one in three) that handle bound again to context.Background() (for a scope binding: by one more scope): nothing of the old context reaches a call; (3) context cancelled during the k-th call made under it (3 positions, thorough: all): no later call on behalf of the bound handle; distinct = (operation, PrepareStmt, nesting, entry, event kinds, size class, chain value, manual transaction, session option, binding form, binding depth, outer handle); non-trivial = at least 2 context-carrying driver events",
 	Assumptions: []string{
 		"COMMIT/ROLLBACK carry no context in database/sql's driver interface and are not checked",
 		"SQLite behind the recording driver; prepared-statement preparation is observed as a prepare event with its context",
 		"a chain value (clone==0 result of a chain method) is used for exactly one chain; operations that start two chains from their handle (Rows+ScanRows, TxError) get a chain value only inside a Transaction block (whose tx is a session)",
 		"'receives that context' is checked by what the driver can observe of it: the identifying value, the deadline (equal to the caller's) and, for cancellable callers, that cancelling the caller's context ends it; for a plain value context (never ends) only value and absence of a deadline are demanded; object identity is not demanded",
 		"db.Connection blocks and DryRun sessions are not part of the quantifier (C14 / C19) and are not generated",
+		"a context bound by a scope takes effect when the scopes run: it is generated only for operations whose every driver call comes after that (finishers that go through the callback processors, FindInBatches, FirstOrCreate/Init, Save). Not generated, because the statement does not say which context applies before the scopes have run: Transaction / Begin / SavePoint called on a chain that carries the scope (they do not run scopes), CreateInBatches (several batches open a block of their own first), association mode (it never runs scopes as a step of its own), operations that start two chains from their handle",
+		"inside a Transaction block the context is bound on the block's tx (tx.WithContext / tx.Session{Context}); the blocks above run under the outer handle's context, which stays alive, so a cancelled operation context never ends the enclosing transaction by itself",
 	},
 	Cases: func(tier string) int {
 		if tier == "thorough" {
